@@ -1,22 +1,238 @@
-use std::time::Instant;
-use cairo_lang_starknet_classes::casm_contract_class::CasmContractClass;
-use cairo_lang_starknet_classes::contract_class::ContractClass;
+//! h19 -- correspondence and impl-level oracle for C19 (compiled Starknet classes).
+//!
+//! usage: h19 <out_dir> [quick|thorough]
+//! Inputs: every `*.contract_class.json` under /repo/crates/cairo-lang-starknet/test_data, plus
+//! generated variations (entry point permutations/duplicates/subsets, mutated signatures, Sierra
+//! versions, pythonic hints on/off, bytecode size limits, hand-built programs with
+//! `felt252_const<v>`), plus synthetic inputs for the segmentation hook.
+//! Outputs: `cls_<nnn>.v` / `syn_<nnn>.v` case shards for C19/Corr.v, `summary.json`,
+//! `samples.txt`, `oracle_failures.json`.
+mod oracle;
+mod print;
+mod vary;
+
+use std::fmt::Write as _;
+use std::fs;
+use std::panic::AssertUnwindSafe;
+
+use cairo_lang_sierra::extensions::gas::{CostTokenMap, CostTokenType};
+use cairo_lang_sierra::program::Program;
+use cairo_lang_sierra_to_casm::compiler::{
+    CairoProgram, CairoProgramDebugInfo, SierraToCasmConfig,
+};
+use cairo_lang_sierra_to_casm::metadata::{MetadataComputationConfig, calc_metadata};
+use cairo_lang_sierra_type_size::ProgramRegistryInfo;
+use cairo_lang_starknet_classes::casm_contract_class::{
+    CasmContractClass, ENTRY_POINT_COST, StarknetSierraCompilationError,
+};
+use cairo_lang_starknet_classes::compiler_version::VersionId;
+use cairo_lang_starknet_classes::contract_class::{ContractClass, ExtractedSierraProgram};
+use vcommon::{Rng, catch, quiet_panics};
+
+pub const TEST_DATA: &str = "/repo/crates/cairo-lang-starknet/test_data";
+
+pub enum Outcome {
+    Ok(Box<CasmContractClass>, CairoProgramDebugInfo),
+    Err(StarknetSierraCompilationError),
+    Panic(String),
+}
+
+/// The implementation under test.
+pub fn run_impl(
+    cc: &ContractClass,
+    program: &Program,
+    sv: VersionId,
+    pythonic: bool,
+    max: usize,
+) -> Outcome {
+    let cc = cc.clone();
+    let ex = ExtractedSierraProgram {
+        program: program.clone(),
+        sierra_version: sv,
+        compiler_version: VersionId { major: 2, minor: 0, patch: 0 },
+    };
+    match catch(AssertUnwindSafe(move || {
+        CasmContractClass::from_contract_class_with_debug_info(cc, ex, pythonic, max)
+    })) {
+        Ok(Ok((c, d))) => Outcome::Ok(Box::new(c), d),
+        Ok(Err(e)) => Outcome::Err(e),
+        Err(msg) => Outcome::Panic(format!("{} @ {}", msg, vcommon::last_panic_location())),
+    }
+}
+
+/// The same metadata + sierra-to-casm calls `from_contract_class_with_debug_info` makes, to get at
+/// the `CairoProgram` (instructions, consts) that the class constructor does not return.  The
+/// oracle checks that its debug info is the one the constructor returned.
+pub fn replicate_compile(
+    cc: &ContractClass,
+    program: &Program,
+    sv: VersionId,
+    max: usize,
+) -> Result<CairoProgram, String> {
+    let r = catch(AssertUnwindSafe(|| -> Result<CairoProgram, String> {
+        let info = ProgramRegistryInfo::new(program).map_err(|e| format!("{e:?}"))?;
+        let eps = &cc.entry_points_by_type;
+        let ids = eps
+            .constructor
+            .iter()
+            .chain(eps.external.iter())
+            .chain(eps.l1_handler.iter())
+            .map(|e| program.funcs[e.function_idx].id.clone());
+        let no_eq_solver = sv.supports(VersionId { major: 1, minor: 4, patch: 0 });
+        let config = MetadataComputationConfig {
+            function_set_costs: ids
+                .map(|id| (id, CostTokenMap::from_iter([(CostTokenType::Const, ENTRY_POINT_COST)])))
+                .collect(),
+            linear_gas_solver: no_eq_solver,
+            linear_ap_change_solver: no_eq_solver,
+            skip_non_linear_solver_comparisons: false,
+            compute_runtime_costs: false,
+        };
+        let metadata = calc_metadata(program, &info, config).map_err(|e| format!("{e:?}"))?;
+        cairo_lang_sierra_to_casm::compiler::compile(
+            program,
+            &info,
+            &metadata,
+            SierraToCasmConfig { gas_usage_check: true, max_bytecode_size: max },
+        )
+        .map_err(|e| format!("{e:?}"))
+    }));
+    match r {
+        Ok(x) => x,
+        Err(p) => Err(format!("panic: {p}")),
+    }
+}
+
+pub struct Loaded {
+    pub name: String,
+    pub cc: ContractClass,
+    pub program: Program,
+    pub sv: VersionId,
+}
+
+fn load_all() -> Vec<Loaded> {
+    let mut paths: Vec<_> = fs::read_dir(TEST_DATA)
+        .unwrap()
+        .map(|e| e.unwrap().path())
+        .filter(|p| p.to_str().unwrap().ends_with(".contract_class.json"))
+        .collect();
+    paths.sort();
+    let mut res = vec![];
+    for p in paths {
+        let name = p.file_name().unwrap().to_str().unwrap().replace(".contract_class.json", "");
+        let text = fs::read_to_string(&p).unwrap();
+        let cc: ContractClass = match serde_json::from_str(&text) {
+            Ok(c) => c,
+            Err(_) => continue,
+        };
+        let ex = match cc.extract_sierra_program(false) {
+            Ok(e) => e,
+            Err(_) => continue,
+        };
+        res.push(Loaded { name, cc, program: ex.program, sv: ex.sierra_version });
+    }
+    res
+}
+
+#[derive(Default)]
+pub struct Stats {
+    pub classes: usize,
+    pub impl_runs: usize,
+    pub ok_runs: usize,
+    pub err_runs: usize,
+    pub post_runs: usize,
+    pub panic_runs: usize,
+    pub oracle_checked: usize,
+    pub seg_cases: usize,
+    pub seg_ok: usize,
+    pub seg_err: usize,
+    pub seg_panic: usize,
+    pub lay_cases: usize,
+    pub lay_rejected: usize,
+    pub canon_cases: usize,
+    pub canon_words: usize,
+    pub canon_negative_words: usize,
+    pub ep_cases: usize,
+    pub ver_cases: usize,
+    pub err_kinds: std::collections::BTreeMap<String, usize>,
+    pub variation_kinds: std::collections::BTreeMap<String, usize>,
+    pub distinct: std::collections::BTreeSet<u64>,
+    pub coq_full_classes: usize,
+    pub panics: Vec<String>,
+}
 
 fn main() {
-    let dir = "/repo/crates/cairo-lang-starknet/test_data";
-    let mut names: Vec<_> = std::fs::read_dir(dir).unwrap().map(|e| e.unwrap().path()).filter(|p| p.to_str().unwrap().ends_with(".contract_class.json")).collect();
-    names.sort();
-    for p in names {
-        let t = Instant::now();
-        let cc: ContractClass = serde_json::from_str(&std::fs::read_to_string(&p).unwrap()).unwrap();
-        let ex = cc.extract_sierra_program(false).unwrap();
-        let ns = ex.program.statements.len();
-        let nf = ex.program.funcs.len();
-        let sv = ex.sierra_version;
-        let r = CasmContractClass::from_contract_class_with_debug_info(cc, ex, true, usize::MAX);
-        match r {
-            Ok((c, _d)) => println!("{} stmts={} funcs={} sv={:?} bytecode={} hints={} t={:?}", p.file_name().unwrap().to_str().unwrap(), ns, nf, sv, c.bytecode.len(), c.hints.len(), t.elapsed()),
-            Err(e) => println!("{} ERR {:?}", p.display(), e),
-        }
+    quiet_panics();
+    let args: Vec<String> = std::env::args().collect();
+    let out_dir = args[1].clone();
+    let thorough = args.get(2).map(|s| s == "thorough").unwrap_or(false);
+    let mut rng = Rng::from_env();
+    fs::create_dir_all(&out_dir).unwrap();
+
+    let mut stats = Stats::default();
+    let mut failures: Vec<oracle::Failure> = vec![];
+    let mut samples = String::new();
+
+    let loaded = load_all();
+    stats.classes = loaded.len();
+    for (k, l) in loaded.iter().enumerate() {
+        let shard =
+            vary::class_shard(k, l, thorough, &mut rng, &mut stats, &mut failures, &mut samples);
+        fs::write(format!("{}/cls_{:03}.v", out_dir, k), shard).unwrap();
     }
+    // hand-built programs with felt252_const<v> (boundary words through the canonicaliser)
+    let shard = vary::canon_probe_shard(&loaded, thorough, &mut rng, &mut stats, &mut failures, &mut samples);
+    fs::write(format!("{}/cls_{:03}.v", out_dir, 900), shard).unwrap();
+    // synthetic inputs for the segmentation hook
+    for (k, shard) in
+        vary::synthetic_seg_shards(thorough, &mut rng, &mut stats, &mut samples).into_iter().enumerate()
+    {
+        fs::write(format!("{}/syn_{:03}.v", out_dir, k), shard).unwrap();
+    }
+
+    let mut s = String::new();
+    write!(
+        s,
+        "{{\"classes\": {}, \"impl_runs\": {}, \"ok_runs\": {}, \"err_runs\": {}, \"post_validation_errors\": {}, \
+         \"panic_runs\": {}, \"oracle_checked_results\": {}, \"seg_cases\": {}, \"seg_ok\": {}, \"seg_err\": {}, \
+         \"seg_panic\": {}, \"lay_cases\": {}, \"lay_rejected\": {}, \"canon_cases\": {}, \"canon_words\": {}, \
+         \"canon_negative_words\": {}, \"ep_cases\": {}, \"ver_cases\": {}, \"coq_full_classes\": {}, \
+         \"distinct_cases\": {}, \"oracle_failures\": {}, \"panic_samples\": {}, \"err_kinds\": {{{}}}, \"variation_kinds\": {{{}}}}}",
+        stats.classes,
+        stats.impl_runs,
+        stats.ok_runs,
+        stats.err_runs,
+        stats.post_runs,
+        stats.panic_runs,
+        stats.oracle_checked,
+        stats.seg_cases,
+        stats.seg_ok,
+        stats.seg_err,
+        stats.seg_panic,
+        stats.lay_cases,
+        stats.lay_rejected,
+        stats.canon_cases,
+        stats.canon_words,
+        stats.canon_negative_words,
+        stats.ep_cases,
+        stats.ver_cases,
+        stats.coq_full_classes,
+        stats.distinct.len(),
+        failures.len(),
+        serde_json::to_string(&stats.panics.iter().take(4).collect::<Vec<_>>()).unwrap(),
+        stats.err_kinds.iter().map(|(k, v)| format!("\"{k}\": {v}")).collect::<Vec<_>>().join(", "),
+        stats.variation_kinds.iter().map(|(k, v)| format!("\"{k}\": {v}")).collect::<Vec<_>>().join(", "),
+    )
+    .unwrap();
+    fs::write(format!("{}/summary.json", out_dir), &s).unwrap();
+    fs::write(
+        format!("{}/oracle_failures.json", out_dir),
+        serde_json::to_string_pretty(
+            &failures.iter().map(|f| f.to_json()).collect::<Vec<serde_json::Value>>(),
+        )
+        .unwrap(),
+    )
+    .unwrap();
+    fs::write(format!("{}/samples.txt", out_dir), samples).unwrap();
+    println!("{}", s);
 }
